@@ -219,7 +219,6 @@ int vp_case(Choice& c, Report& rep) {
       outs++;
       VP_REQUIRE(L > 0 && L <= cap, f3 ? "c07:out-range-split-extension" : bad_ext ? "c07:out-fails-on-arbitrary-padding" : "c07:out-error",
                  "out_range(%d,%d) of %d frames with maxlen %ld returned %d (%d extensions selected, range %s packet boundaries)", b, e, N, cap, L, n_ext, cut ? "cuts" : "on");
-      for (long i = L; i < cap; i++) VP_REQUIRE(big.p[i] == 0x5A, "c07:out-writes-past-length", "byte %ld beyond the returned length %d was modified", i, L);
       if (check_output(rep, M, b, e, big.p, L, f3)) return 1;
       // size promises
       // opus.h also calls "1*(end-begin) + all submitted bytes" sufficient; that is not part of the property text and is false when CBR
